@@ -24,7 +24,7 @@ theorem effectiveGroups_eq (pi : PipeInst) :
       else (["steps"], pi.success, pi.failure) := by
   obtain ⟨name, groups, success, failure, pin, ca⟩ := pi
   unfold effectiveGroups groupsGiven nameGiven
-  rcases groups with _ | ⟨_ | ⟨g, gs⟩⟩ <;> simp
+  rcases groups with _ | ⟨_ | ⟨g, gs⟩⟩ <;> first | rfl | (simp; done)
 
 theorem effectiveGroups_given (pi : PipeInst) (g : String) (gs : List String) (h : pi.groups = some (g :: gs)) :
     effectiveGroups pi = (g :: gs, pi.success, pi.failure) := by
@@ -60,7 +60,6 @@ theorem runFailureGroup_result (fuel : Nat) (prog : Program) (pipe : String) (g 
   | zero => unfold runFailureGroup; simp
   | succ n =>
     unfold runFailureGroup
-    simp only []
     repeat' split
     all_goals simp
 
@@ -102,7 +101,7 @@ theorem runGroups_err_origin (fuel : Nat) (prog : Program) (pipe : String) (g : 
       ((hasFailureGroup failure = false ∧ s' = s1) ∨
        (hasFailureGroup failure = true ∧ runFailureGroup fuel prog pipe failure s1 = (s', .ok))) := by
   rw [runGroups_char_eq] at hr
-  generalize hm : mainPhase fuel prog pipe (g :: gs) success s = p at hr
+  generalize hm : mainPhase fuel prog pipe (g :: gs) success s = p at hr ⊢
   obtain ⟨s1, r⟩ := p
   cases r with
   | err e1 h1 =>
@@ -115,7 +114,7 @@ theorem runGroups_err_origin (fuel : Nat) (prog : Program) (pipe : String) (g : 
       cases r2 <;> simp [handlerOutcome] at hr hcls
       obtain ⟨h1', h2', h3'⟩ := hr
       subst h1' h2' h3'
-      exact ⟨s1, rfl, .inr ⟨hf, rfl⟩⟩
+      exact ⟨s1, rfl, .inr ⟨hf, hq⟩⟩
     · rw [if_neg hf] at hr
       injection hr with h1' h2'
       injection h2' with h3' h4'
@@ -147,7 +146,17 @@ theorem runRoot_ok_iff (fuel : Nat) (prog : Program) (pi : PipeInst) (s s' : St)
   rw [runRoot_eq]
   generalize runPipeline fuel prog pi s = p
   obtain ⟨s1, r⟩ := p
-  cases r <;> simp [Res.isStopFamily]
+  constructor
+  · intro h
+    cases r <;> simp at h <;> subst h <;> first
+      | exact ⟨_, rfl, .inl rfl⟩
+      | exact ⟨_, rfl, .inr rfl⟩
+  · rintro ⟨r', h, hr⟩
+    injection h with h1 h2
+    subst h1 h2
+    rcases hr with hr | hr
+    · subst hr; rfl
+    · cases r <;> simp [Res.isStopFamily] at hr <;> rfl
 
 theorem runRoot_err_iff (fuel : Nat) (prog : Program) (pi : PipeInst) (s s' : St) (e : ExcV) (h : Bool) :
     runRoot fuel prog pi s = (s', .err e h) ↔ runPipeline fuel prog pi s = (s', .err e h) := by
@@ -179,22 +188,33 @@ theorem runPipeline_err_origin (fuel : Nat) (prog : Program) (pi : PipeInst) (pd
     have hcls := runFailureGroup_result fuel prog pi.name (effectiveGroups pi).2.2 s1
     generalize hq : runFailureGroup fuel prog pi.name (effectiveGroups pi).2.2 s1 = q at hr hcls
     obtain ⟨s2, r2⟩ := q
-    cases r2 <;> simp at hr hcls
+    cases r2 <;> simp [-List.drop_one] at hr hcls
     · obtain ⟨h1', h2', h3'⟩ := hr
       subst h2' h3'
-      exact .inl ⟨s1, s2, rfl, .inl rfl, h1'.symm⟩
+      exact .inl ⟨s1, s2, rfl, .inl hq, h1'.symm⟩
     · obtain ⟨h1', h2', h3'⟩ := hr
       subst h2' h3'
-      exact .inl ⟨s1, s2, rfl, .inr rfl, h1'.symm⟩
+      exact .inl ⟨s1, s2, rfl, .inr hq, h1'.symm⟩
   | ok =>
     simp only [] at hr
     generalize hq : runGroups fuel prog pi.name (effectiveGroups pi).1 (effectiveGroups pi).2.1
       (effectiveGroups pi).2.2 s1 = q at hr
     obtain ⟨s2, r2⟩ := q
-    cases r2 <;> simp at hr
+    cases r2 <;> simp [-List.drop_one] at hr
     obtain ⟨h1', h2', h3'⟩ := hr
     subst h2' h3'
-    exact .inr ⟨s1, s2, rfl, rfl, h1'.symm⟩
+    exact .inr ⟨s1, s2, rfl, hq, h1'.symm⟩
   | _ => simp at hr
+
+/-! ### the two loops, in runner vocabulary -/
+
+/-- the leading steps `pre` of `run_pipeline_steps` (called with `fuel`) all ended normally and took the
+    state from `s` to `s'`, each step starting in the state its predecessor left -/
+abbrev StepsChain (prog : Program) (pipe : String) : Nat → List StepDef → St → St → Prop :=
+  SeqChain (fun k d => runStep k prog pipe d)
+
+/-- the same for the leading groups of the `for step_group in groups` loop -/
+abbrev GroupsChain (prog : Program) (pipe : String) : Nat → List String → St → St → Prop :=
+  SeqChain (fun k g => runStepGroup k prog pipe g false)
 
 end Pypyr.Flow
